@@ -281,6 +281,27 @@ def main(prop, tier, seed, replay_path=None):
                                                       'behave_status': st, 'failing': bad})
                 out.append('VIOLATION property=C19 replay=%s' % pth)
                 out.append('  %s: last step %s status=%s' % (bad, h[bad[0][0] - 1], st[bad[0][0] - 1]))
+    # the sismic.testing predicates, directly on macro steps of the interpreter engine (clause C19.testing)
+    sout = None
+    if not replay_path:
+        import interp_check
+        stage = dict(name='testing', charts=gc.family_f3(rng, 10 if quick else 60, nmin=3, nmax=6, tmin=3, tmax=7, nev=2, max_oracle=1),
+                     consts=dict(MaxQ=1, MaxLevel=5 if quick else 6, Params={0, 7}),
+                     variants=[dict(variant='api')],
+                     random=dict(count=150 if quick else 1500, length=14, params=(0, 7),
+                                 family=lambda r, kk: gc.family_f3(r, kk, nmin=5, nmax=9)))
+        try:
+            sout, viol, allcharts, samples, mc2 = interp_check.run_stage('C19', tier, seed, stage, rng)
+        except interp_check.Machinery as e:
+            print('MACHINERY-FAILURE property=C19: %s' % e)
+            return 2
+        for (t, mine, r) in viol:
+            nviol += 1
+            if nviol <= 8:
+                pth = evd.write_replay('C19', 100 + nviol, {'property': 'C19', 'chart': allcharts[t['ci'] - 1], 'hist': t['hist'],
+                                                            'kw': t['kw'], 'failing': mine, 'lines': t['lines']})
+                out.append('VIOLATION property=C19 replay=%s' % pth)
+                out.append('  clauses=%s (sismic.testing predicates vs the returned MacroStep)' % sorted({b[2] for b in mine}))
     for ln in out:
         print(ln)
     if replay_path:
@@ -288,7 +309,7 @@ def main(prop, tier, seed, replay_path=None):
     cov = dict(states=mc['distinct'], transitions=mc['generated'], traces_validated_against_impl=len(traces),
                samples=[{'feature_head': sample_feature}, {'scenario': traces[-1]}],
                exhaustive=bool(mc['completed']), charts=len(charts), scenarios=len(traces),
-               max_steps=3 if quick else 4, mc_cmd=mc['cmd'], trace_cmd=tr['cmd'],
+               max_steps=3 if quick else 4, mc_cmd=mc['cmd'], trace_cmd=tr['cmd'], testing_stage=sout,
                rule='BddMC.tla: every scenario of up to max_steps predefined steps (documented spelling) over the chart '
                     'family that ends with a then step; each is run through the real execute_bdd/behave; TLC (BddTrace.tla) '
                     'decides for every executed step whether "passed" agrees with the documented meaning')
